@@ -798,6 +798,13 @@ fn one_case(rep: &Report, rng: &mut Rng, cfg: &GenCfg, env: &Env, idx: u64) {
                             }
                         }
                     }
+                    // C01's known deviation (IN / NOT IN (subquery) below OR / NOT is evaluated two-valued through a
+                    // mark join) surfaces here when the literal text lets the optimizer fold the OR away
+                    // (`... OR 4.5 < 3.375`) while the placeholder keeps it: the literal run is right, the
+                    // parameterized one shows the deviation
+                    if sig == format!("param-vs-literal/{route}") && pc.par_sql.contains("IN (SELECT") && (pc.par_sql.contains(" OR ") || pc.par_sql.contains("NOT (")) {
+                        sig = format!("param-vs-literal/{route}/in-subquery-two-valued-nested");
+                    }
                     rep.violation(&sig, witness(&case, &pc, route, Some(&o.rows), Some(&inl.rows), ref_rows.as_deref(), &format!("parameterized execution differs from literal-inlined execution: {diff}")));
                 } else if o.types != inl.types {
                     // same values, different column types: observed, not asserted (types are C30's subject)
